@@ -25,6 +25,7 @@ fn main() {
                 _ => usage(),
             };
             let ctx = Ctx { prop: args[2].clone(), tier, seed, threads, scale };
+            fw::init_known(&ctx.prop);
             let code = encverif::checks::run(&ctx);
             std::process::exit(code);
         }
